@@ -397,6 +397,34 @@ def run_history(seed, prop, model, rep, length):
                         rep.count("reflag_checked")
                 if rng.chance(1, 2) and do_query(step):
                     return
+            elif k < 82 and rng.chance(1, 2):
+                # HEAD does not resolve to a commit (an orphan branch before its first commit):
+                # an update without --id has nothing to record and must fail, leaving the stored
+                # checkpoint as it was; the working tree and the index are untouched, so the model
+                # sees nothing of this episode
+                r.git("checkout", "-q", "--orphan", "orphan%d" % step)
+                before_ck = real_ck(h.show()) if h.has_ck else None
+                args = ["checkpoint", "update"] + (["-p"] if rng.chance(1, 2) else [])
+                rc, j, out, err = r.mono(*args)
+                shown = real_ck(h.show()) if h.has_ck else None
+                showrc = h.show()
+                r.git("checkout", "-q", "main")
+                r.git("branch", "-q", "-D", "orphan%d" % step, check=False)
+                rep.evaluations += 1
+                rep.count("update_with_unborn_head")
+                h.log.append("git checkout --orphan; checkpoint update" + (" -p" if "-p" in args else "") + "; git checkout main")
+                if rc == 0:
+                    if fail("C19", "checkpoint update without --id succeeded although HEAD resolves to no commit",
+                            recorded=(j or {}).get("checkpoint")):
+                        return
+                    # the stored checkpoint is whatever that update wrote: resynchronise by deleting it
+                    r.mono("checkpoint", "delete")
+                    h.events.append(["ckdelete"])
+                    h.has_ck = False
+                    last_update_return = None
+                elif (h.has_ck and shown != before_ck) or (not h.has_ck and showrc is not None):
+                    if fail("C19", "a failed checkpoint update changed what checkpoint show returns", before=before_ck, after=shown):
+                        return
             elif k < 84:
                 which = rng.pick(["ckdelete", "outdelete"])
                 if which == "ckdelete":
@@ -461,8 +489,7 @@ def main():
     n = (300 if args["tier"] == "thorough" else 40) * args["budget"]
     for _ in range(n):
         cases.append((rng.next(), rng.range(10, 30) if args["tier"] == "quick" else rng.range(15, 80)))
-    with ThreadPoolExecutor(max_workers=12) as ex:
-        list(ex.map(lambda c: run_history(c[0], prop, model, rep, c[1]), cases))
+    scen.run_cases(lambda c: run_history(c[0], prop, model, rep, c[1]), cases, rep, 12)
     scen.finish(args, rep, t0, model)
 
 
